@@ -209,9 +209,16 @@ def _mutable_call(g):
 
 # ---------------------------------------------------------------------------------------------
 
-def sized_params(g):
-    """(name, documented sizes, builder(values) -> Case) for every public function"""
+def sized_params(g, fixed=False):
+    """(name, documented sizes, builder(values) -> Case) for every public function; `fixed`: the other arguments are the
+    same in every call (so that calls differ in the sized arguments only)"""
     R = g.R
+    if fixed:
+        class _First:
+            choice = staticmethod(lambda xs: xs[0])
+            randbytes = staticmethod(lambda n: bytes(range(1, n + 1)))
+            randrange = staticmethod(lambda a, b=None: a)
+        R = _First
 
     def P(name, sizes, build):
         return (name, sizes, build)
@@ -273,6 +280,28 @@ def C15(ctx):
                     vals = list(fixed); vals[i] = v
                     c = mk(vals); c.gen = f"same value, other size: {name} param {i}"
                     cases.append(c)
+    # the same bytes, cut elsewhere: right after a valid call, its sized arguments concatenated (in every order) and
+    # re-cut with the boundaries moved by up to three bytes (a key made of joined arguments forgets the boundaries)
+    import itertools
+    for name, sizes, build in sized_params(g, fixed=True):
+        if len(sizes) < 2:
+            continue
+        for rep in range(2):
+            vals = [R.randbytes(n) for n in sizes]
+            c0 = build(vals); c0.gen = f"valid call before re-cut {name}"; cases.append(c0)
+            for perm in itertools.permutations(range(len(sizes))):
+                joined = b"".join(vals[i] for i in perm)
+                cuts0 = list(itertools.accumulate(sizes[i] for i in perm))[:-1]
+                for bi in range(len(cuts0)):
+                    for d in (-3, -2, -1, 1, 2, 3):
+                        cuts = list(cuts0); cuts[bi] += d
+                        if cuts != sorted(cuts) or cuts[0] < 0 or cuts[-1] > len(joined):
+                            continue
+                        parts = [joined[a:b] for a, b in zip([0] + cuts, cuts + [len(joined)])]
+                        nv = list(vals)
+                        for pos, i in enumerate(perm):
+                            nv[i] = parts[pos]
+                        c = build(nv); c.gen = f"same bytes, boundaries moved: {name}"; cases.append(c)
     # proprietary data 0..8 accepted, above refused; PIN and current PIN lengths 0..20
     for ln in range(0, top + 1):
         cases.append(op_arpc2(g.key(), R.randbytes(8), R.randbytes(4), R.randbytes(ln), gen="sweep prop auth data", proj="class"))
